@@ -291,6 +291,12 @@ def merge(dumps):
         for k, v in d['notes'].items():
             if isinstance(v, (int, float)) and not isinstance(v, bool) and isinstance(out['notes'].get(k, 0), (int, float)):
                 out['notes'][k] = out['notes'].get(k, 0) + v
+            elif k == 'unreached_lines' and isinstance(v, list):
+                # a line is unreached only if no shard reached it
+                if k in out['notes']:
+                    out['notes'][k] = [it for it in out['notes'][k] if it in v]
+                else:
+                    out['notes'][k] = list(v)
             elif isinstance(v, list) and isinstance(out['notes'].get(k, []), list):
                 lst = out['notes'].setdefault(k, [])
                 for it in v:
